@@ -20,6 +20,7 @@ type Ctx struct {
 	P         *core.Prog
 	R         *core.Report
 	Tier      string
+	nSpelling int // C08.1g: sites examined
 }
 
 type Check struct {
